@@ -63,7 +63,11 @@ func (pass *NameAnonymousStruct) processObject(object ast.Object) (ast.Object, a
 		newObject = ast.NewObject(pkg, pass.As, field.Type)
 		newObject.AddToPassesTrail("NameAnonymousStruct")
 
-		object.Type.AsStruct().Fields[i].Type = ast.NewRef(pkg, pass.As)
+		ref := ast.NewRef(pkg, pass.As)
+		ref.Nullable = field.Type.Nullable
+		ref.Default = field.Type.Default
+
+		object.Type.AsStruct().Fields[i].Type = ref
 	}
 
 	return object, newObject
